@@ -11,6 +11,7 @@ def check(ctx, prog):
     ctx.rule("R-PUSH-POP")
     branching.check_choice_points(ctx, prog)
     propagators.rule_status_vocab(ctx, prog)
+    propagators.rule_enforce_entail(ctx, prog)
     engine.rule_wakeup(ctx, prog)
     engine.rule_writeback(ctx, prog, want=("R-FLAGS-WRITERS",))
     search.rule_solve_one(ctx, prog, want=("R-HANDOVER",))
